@@ -207,7 +207,10 @@ impl Poll {
     }
 
     pub fn poll_interruptible(&self, events: &mut Events, timeout: Option<Duration>) -> io::Result<usize> {
-        self.poll(events, timeout)
+        let toks = dsim::poll_wait_opts(self.id, events.cap, timeout, true)?;
+        events.inner.clear();
+        events.inner.extend(toks.iter().map(|&t| Event { token: Token(t) }));
+        Ok(events.inner.len())
     }
 
     pub fn poll(&self, events: &mut Events, timeout: Option<Duration>) -> io::Result<usize> {
